@@ -280,7 +280,8 @@ def gen_name(rng, kind="plain"):
     """kind: plain (alphabetic first character), numlike (starts with digit . - but is not a number), nonalpha"""
     while True:
         s = _gen_name(rng, kind)
-        if not is_rust_float(s):
+        # a word is lexed as a number only when it starts like one (digit . -): `inf`, `nan`, `infinity` are names
+        if not (s[0] in "0123456789.-" and is_rust_float(s)):
             return s
 
 def _gen_name(rng, kind):
@@ -291,6 +292,8 @@ def _gen_name(rng, kind):
         return rng.choice(NONALPHA_START) + rest
     if kind == "numlike" or (kind == "mixed" and r < 0.1):
         return rng.choice(["18T", "1a", "-x", ".y", "-", "3.3v", "1e", "1.2.3", "--1", "0x10", "-inf_", "5_", "9é"]) + rest.replace('"', "q")
+    if r > 0.97:
+        return rng.choice(["inf", "nan", "NaN", "Infinity", "e5", "END", "layer", "Pin"])
     return rng.choice(NAME_START) + rest
 
 STR_BODY = ["", "x", "a b", "hello world", "é中 😀", "# not a comment ;", "a\tb", "MACRO END", "1.5", "line1\nline2", "[]", "a'b"]
@@ -306,7 +309,7 @@ def gen_dec(rng, fam=None):
     if fam == "zero":
         m, s = 0, rng.choice([0, 0, 1, 3])
     elif fam == "int":
-        m, s = rng.choice([1, 2, 5, 10, 100, 999, 12345, 2 ** 31, 10 ** 9]), 0
+        m, s = rng.choice([1, 2, 5, 10, 100, 999, 12345, 2 ** 31, 10 ** 9, 2 ** 32, 2 ** 63, 2 ** 64]), 0
     elif fam in ("d1", "d2", "d3", "d6"):
         s = int(fam[1:]); m = rng.randrange(1, 10 ** (s + rng.choice([0, 1, 3])))
     elif fam == "neg":
@@ -361,7 +364,7 @@ class LibGen:
         if t == Z:
             return rng.choice(DBU)
         if t == CH:
-            return ord(rng.choice("[]<>(){}|/:.!é中"))
+            return ord(rng.choice("[]<>(){}|/:.!é中#;'\\\U0001F600"))
         k = t[0]
         if k == "opt":
             if (rec, field) == ("lef_layer_geoms", "except_pg_net"):
@@ -423,6 +426,93 @@ def minimal_lib(ver=None):
     lib["version"] = None if ver is None else [False, str(ver), 1]
     return lib
 
+class Rich:
+    """Deterministic library with EVERY option set, every constructor and every enum value somewhere, decimals and names all
+    different (so a value that lands in the wrong field, or two statements that are merged, show).  `name_fn(k)` gives the
+    k-th identifier; `width` = number of items in lists of records (lists of variants hold one item per constructor, lists
+    of enum values every value)."""
+    WIDE = {("lef_lib", "macros"): 2, ("lef_lib", "vias"): 2, ("lef_macro", "pins"): 2, ("lef_pin", "ports"): 2, ("lef_macro", "obs"): 2,
+            ("lef_macro", "density"): 2, ("lef_density_geoms", "geometries"): 2, ("lef_fixed_via", "layers"): 2, ("lef_lib", "extensions"): 2}
+    def __init__(self, old, name_fn=None, width=1, wide=None, lean=False):
+        self.old = old; self.k = 0; self.nk = 0; self.cyc = {}; self.width = width; self.lean = lean
+        self.name_fn = name_fn or (lambda k: "n%d" % k)
+        self.wide = self.WIDE if wide is None else wide
+    def _next(self, key, n):
+        i = self.cyc.get(key, 0); self.cyc[key] = i + 1
+        return i % n
+    def dec(self):
+        self.k += 1; k = self.k
+        return [k % 5 == 0, str(7 * k + 1), k % 4]
+    def name(self):
+        self.nk += 1
+        return H(self.name_fn(self.nk))
+    def val(self, t, rec=None, field=None):
+        if t == B:
+            if (rec, field) in (("lef_pin", "net_expr"), ("lef_extension", "name")):
+                return H('"%s %d"' % (field, self._next("q", 1000)))
+            if (rec, field) == ("lef_antenna_attr", "key"):
+                i = self._next("ak", len(ANTENNA_KEYS))
+                return H(ANTENNA_KEYS[i] if i % 2 else ANTENNA_KEYS[i].lower())
+            if (rec, field) == ("lef_property", "value"):
+                i = self._next("pv", 3)
+                return H(['"v %d"' % self.k, "-1.50", "val"][i])
+            if (rec, field) == ("lef_extension", "data"):
+                return H('x 1.5 ; "q" MACRO end ')
+            return self.name()
+        if t == D:
+            return self.dec()
+        if t == BOOL:
+            return True
+        if t == Z:
+            return DBU[self._next("dbu", len(DBU))]
+        if t == CH:
+            return ord("[]/<>|"[self._next("ch", 6)])
+        k = t[0]
+        if k == "opt":
+            if (rec, field) in (("lef_macro", "source"), ("lef_lib", "names_case_sensitive"), ("lef_lib", "no_wire_extension_at_pin")) and not self.old:
+                return None
+            return self.val(t[1], rec, field)
+        if k == "list":
+            et = t[1]
+            if self.lean and et[0] in ("enum", "var"):
+                return [self.val(et, rec, field)]
+            if et[0] == "enum":
+                return [v for v, _ in ENUMS[et[1]]]
+            if et[0] == "var":
+                return [self.ctor(et[1], cn, ats) for cn, ats in SCH[et[1]][2]]
+            n = self.wide.get((rec, field), self.width) if et[0] == "rec" else self.width
+            if et == R("lef_antenna_attr") and not self.lean:
+                n = len(ANTENNA_KEYS)
+            if et == R("lef_property") and not self.lean:
+                n = 3
+            return [self.val(et, rec, field) for _ in range(n)]
+        if k == "pair":
+            return [self.val(t[1], rec, field), self.val(t[2], rec, field)]
+        if k == "enum":
+            vs = ENUMS[t[1]]
+            return vs[self._next("e:" + t[1], len(vs))][0]
+        if k == "rec":
+            return {fn: self.val(ft, t[1], fn) for fn, ft in SCH[t[1]][2]}
+        if k == "var":
+            ctors = SCH[t[1]][2]
+            cn, ats = ctors[self._next("v:" + t[1], len(ctors))]
+            return self.ctor(t[1], cn, ats)
+        raise ValueError(t)
+    def ctor(self, vn, cn, ats):
+        args = [self.val(a, vn, cn) for a in ats]
+        if vn in ("lef_shape", "lef_via_shape") and cn in ("Polygon", "Path"):
+            args[1] = [{"x": self.dec(), "y": self.dec()} for _ in range(3 if cn == "Polygon" else 2)]
+        if vn == "lef_propdef" and cn == "LefString":
+            args[2] = H('"s %d"' % self.k)
+        return {"v": cn, "a": args}
+
+def rich_lib(ver=None, name_fn=None, width=1, wide=None, lean=False):
+    """ver: None or 50..58 (tenths); lean: one item per list (the identifier positions are all still there)"""
+    old = ver is not None and ver <= 54
+    lib = Rich(old, name_fn, width, wide, lean).val(R("lef_lib"))
+    lib["version"] = None if ver is None else [False, str(ver), 1]
+    return lib
+
 def walk(t, v, path, out):
     """collect coverage facts: fields set / enum variants / list lengths"""
     if v is None:
@@ -457,7 +547,7 @@ def lib_coverage(lib):
 
 # ---- styles
 WS = [32, 32, 32, 9, 10, 10, 13]
-COMMENTS = ["", " plain comment", "é中😀 non-ascii ́", " MACRO x ; END", "#\"quote", " \u0085  spaces"]
+COMMENTS = ["", " plain comment", "é中😀 non-ascii ́", " MACRO x ; END", "#\"quote", " \u0085  spaces", " crlf file\r"]
 def gen_sep_items(rng, first_ws=True, lo=1):
     n = max(lo, rng.choice([1, 1, 1, 2, 3, 4]))
     items = []
